@@ -3,8 +3,9 @@ package rdb
 // C08 — applying a diff gives the database of the new data file.
 //
 // Data-file lines come from templates with symbolic parts (two TXT lines of one owner with two
-// symbolic text bytes each — value equality and prefix relations are the solver's choice — an
-// address line with a symbolic digit, a range-point line). A and B are sub-multisets chosen by
+// symbolic text bytes each — value equality and prefix relations are the solver's choice — a
+// range point without location (empty value), an address line with a symbolic digit, a located
+// range-point line). A and B are sub-multisets chosen by
 // symbolic booleans; the diff "-line" for A\B and "+line" for B\A is applied by the real
 // RDB.ApplyDiff (scanner, dbdiff.Entry, Batch.ApplyDiff, ExecuteBatch) to Store(A); the result
 // must equal Store(B) as a map from key to multiset of values, for v1 and v2 keys.
@@ -17,7 +18,7 @@ import (
 )
 
 //verif:include zz_verif_model.go
-//verif:harness H08_step property=C08 native=no quick=t=3,v2=1,bad=0;t=3,v2=0,bad=1;t=4,v2=0,bad=0 thorough=t=4,v2=1,bad=2;t=5,v2=1,bad=0;t=5,v2=0,bad=1
+//verif:harness H08_step property=C08 native=no quick=t=3,v2=1,bad=0;t=3,v2=0,bad=1;t=4,v2=0,bad=0 thorough=t=4,v2=1,bad=2;t=5,v2=1,bad=0;t=5,v2=0,bad=1;t=6,v2=1,bad=0
 
 func verifPlainText(n int) []byte {
 	b := nd.Bytes(n)
@@ -35,6 +36,7 @@ func verifTemplates(t int) [][]byte {
 	lines := [][]byte{
 		append([]byte("'k.ex,"), verifPlainText(2)...),
 		append([]byte("'k.ex,"), verifPlainText(2)...),
+		[]byte("!\\000m,11.0.0.0"), // a range point without location: its stored value is empty
 		append([]byte("+a.ex,192.0.2."), digit),
 		[]byte("!\\000m,10.0.0.0,8,ab"),
 		[]byte("+a.ex,192.0.2.7"),
